@@ -157,10 +157,15 @@ got:
     t.go.store( 0, std::memory_order_relaxed );
 }
 
+// sequential exploration inside one execution (seqmc): what the harness is doing right now, and a step budget against loops that never end
+char g_context[512] = "";
+uint64_t g_step_budget = 0;
+
 [[noreturn]] void die( int kind, const char* sig, const char* fmt, ... )
 {
     char buf[2048];
     va_list ap; va_start( ap, fmt ); vsnprintf( buf, sizeof buf, fmt, ap ); va_end( ap );
+    if ( g_context[0] ) { size_t n = strlen( buf ); snprintf( buf + n, sizeof buf - n, " [while: %s]", g_context ); }
     if ( g_sh && g_slot >= 0 ) {
         Slot& sl = g_sh->slots[g_slot];
         sl.fail_kind = kind;
@@ -523,6 +528,9 @@ void region_freed( const void* p, size_t n, const char* what ) noexcept
     ++g_nfreed;
 }
 
+void set_context( const char* what ) noexcept { snprintf( g_context, sizeof g_context, "%s", what ? what : "" ); }
+void set_step_budget( uint64_t n ) noexcept { g_step_budget = n; }
+
 void stamp_inv( uint64_t* slot ) noexcept
 {
     Thr* me = tl_self;
@@ -536,6 +544,8 @@ void point( const void* addr, Kind k ) noexcept
     Thr* me = tl_self;
     if ( !me || S.phase == P_OFF ) return;
     ++S.steps;
+    if ( g_step_budget && --g_step_budget == 0 )
+        die( 1, "no-progress", "step budget exhausted: t%d is still running at %s %p (a loop that does not terminate)", me->id, kind_name( k ), addr );
     if ( g_nfreed && addr ) {
         uintptr_t a = uintptr_t( addr );
         for ( unsigned i = 0; i < g_nfreed; ++i )
@@ -912,7 +922,7 @@ void execute( cdsmc::Scenario const& sc, std::vector<Dev> const& devs, int bound
 {
     // reset
     S.nthr = 0; S.cur = 0; S.pointno = 0; S.steps = 0; S.explore_steps = 0; S.clock = 0;
-    g_nfreed = 0;
+    g_nfreed = 0; g_context[0] = 0; g_step_budget = 0;
     memset( S.lower, 0, sizeof S.lower ); S.any_lower = false;
     S.ndevs = devs.size(); S.devpos = 0;
     if ( devs.size() > MAXDEVS ) die( 2, "too-many-deviations", "%zu deviations", devs.size());
